@@ -192,6 +192,16 @@ func (ss *segmentStack) Stats() *SegmentStackStats {
 	return rv
 }
 
+// statsDeep is like Stats(), but also covers the segment stacks of
+// the child collections, recursively.
+func (ss *segmentStack) statsDeep() *SegmentStackStats {
+	rv := ss.Stats()
+	for _, childSegStack := range ss.childSegStacks {
+		childSegStack.statsDeep().AddTo(rv)
+	}
+	return rv
+}
+
 // ChildCollectionNames returns an array of child collection name strings.
 func (ss *segmentStack) ChildCollectionNames() ([]string, error) {
 	var childCollections = make([]string, len(ss.childSegStacks))
